@@ -54,6 +54,56 @@ def run(ctx):
     n2 = R.check_status_calls(ctx, wf, statusf, "R1.status", pid_key="wstatus")
     ctx.floor("C18 writer status call sites", n2, 15)
 
+    # ---- a short fwrite count is a failure: stdio has then dropped or failed to hand on buffered bytes, and
+    # a later call that happens to succeed does not bring them back
+    ctx.clause("C18.6 every fwrite result is compared with the requested count; any shortfall is reported")
+    nfw = 0
+    for fn in wf:
+        cz = Canon(fn)
+        ords = R.call_ordinals(fn)
+        for call in fn.calls("fwrite"):
+            nfw += 1
+            a = call.args()
+            want = [cz(a[2])] if a[1].cv == 1 else ([cz(a[1])] if a[2].cv == 1 else [])
+            key = "fwrite-count|%s:%s|%s" % (FW if P.rel(fn.file) == FW else P.rel(fn.file), fn.name, ords[call.i])
+            # comparisons the result takes part in: directly, or through the local it is stored in
+            p_ = call.parent
+            while p_ is not None and p_.k in ("ParenExpr", "ImplicitCastExpr", "CStyleCastExpr"):
+                p_ = p_.parent
+            cmps = []
+            if p_ is not None and p_.k == "BinaryOperator" and p_.op in ("==", "!=", "<", "<=", ">", ">="):
+                other = p_.c[1] if any(x is call for x in p_.c[0].walk()) else p_.c[0]
+                cmps.append((p_, other))
+            else:
+                d_ = None
+                if p_ is not None and p_.k == "DeclStmt":
+                    for dd, init in zip(p_.get("decls", []), p_.c):
+                        if init is not None and any(x is call for x in init.walk()):
+                            d_ = dd.get("d")
+                elif p_ is not None and is_assign(p_) and p_.op == "=" and p_.c[0].strip().k == "DeclRefExpr":
+                    d_ = p_.c[0].strip().get("d")
+                if d_ is not None:
+                    for x in fn.body.walk():
+                        if x.k == "BinaryOperator" and x.op in ("==", "!=", "<", "<=", ">", ">="):
+                            for me, other in ((x.c[0], x.c[1]), (x.c[1], x.c[0])):
+                                if me.strip_casts().k == "DeclRefExpr" and me.strip_casts().get("d") == d_:
+                                    cmps.append((x, other))
+                        elif x.k == "UnaryOperator" and x.op == "!" and x.c[0].strip_casts().k == "DeclRefExpr" and \
+                                x.c[0].strip_casts().get("d") == d_:
+                            cmps.append((x, None))
+            what = "the result of fwrite is compared with the requested count `%s`; a shortfall is a write failure" % (
+                src(a[2]) if a[1].cv == 1 else src(a[1]))
+            full = [c for c, o in cmps if o is not None and want and cz(o) in want]
+            zero = [c for c, o in cmps if o is None or o.cv == 0]
+            if full:
+                ctx.ok("R1.stdio", key, P.where(call), what, src(full[0])[:80])
+            elif zero:
+                ctx.bad("R1.stdio", key, P.where(zero[0]), what,
+                        "only `%s` is tested: a short count above zero passes as progress" % src(zero[0])[:60])
+            else:
+                ctx.inconclusive("R1.stdio", key, P.where(call), what, "no comparison of the result recognised")
+    ctx.floor("C18 fwrite call sites", nfw, 4)
+
     # ---- close: flush before OK
     close = P.fn("carquet_writer_close", FW)
     # abstract execution of close with a failure injected at each step in turn (the writer's own steps,
